@@ -1,6 +1,865 @@
-//! C20 — stub (not built yet).
+//! C20 — the client cache serves only what upstream said, aged, never stale.
+//!
+//! Histories of queries and clock advances are run against
+//! `net::client::cache::Connection` sitting on a mock upstream (module
+//! `upstream`) under tokio's paused clock. Oracle = history invariant: every
+//! response the cache returns must be explained by one logged upstream
+//! response for the same question and compatible flags, aged correctly and
+//! inside every bound (function `explain`).
+mod case;
+mod upstream;
+
 use crate::engine::*;
+use crate::refimpl::rdata as rr;
+use crate::refimpl::wire;
+use crate::vfail;
+use case::*;
+use domain::base::Message;
+use domain::net::client::cache;
+use domain::net::client::request::{ComposeRequest, RequestMessage, SendRequest};
+use std::collections::BTreeMap;
+use std::time::Duration;
+use tokio::time::Instant;
+use upstream::*;
 
 pub fn prop() -> Option<Prop> {
-    None
+    Some(Prop {
+        id: "C20",
+        rule: "the history contains at least one response served from the cache (no upstream call) and either virtual time passed between the fill and that hit or the hitting query's RD/AD/DO flags differ from those of the filling query",
+        assumptions: &[
+            "time is tokio's paused clock (cache.rs reads only tokio::time::Instant); moka's capacity eviction is exercised only in sub-check `evict`, where just the safety invariant is checked",
+            "upstream is well-behaved unless the case is in class `sloppy-upstream`: it echoes the question, sends RRSIG/NSEC/NSEC3/DS-in-referral only to DO queries and AD only to AD/DO queries, TTLs < 2^31, RDATA valid for its type",
+            "queries are issued one after the other (no two get_response calls in flight)",
+        ],
+        subchecks: vec![
+            SubCheck::new("history", run_history, 40_000, 800_000, 420),
+            SubCheck::new("long", run_history, 5_000, 100_000, 1400),
+            SubCheck::new("evict", run_evict, 4_000, 60_000, 300),
+        ],
+        health: Some(health),
+        extra: None,
+    })
+}
+
+fn health(c: &BTreeMap<String, u64>, _thorough: bool) -> Result<(), String> {
+    let need = [
+        "hit",
+        "hit:after-advance",
+        "edge:rd-down",
+        "edge:do-down",
+        "edge:ad-down",
+        "hit:dnssec-stripped",
+        "hit:ad-cleared",
+        "hit:negative-nxdomain",
+        "hit:negative-nodata",
+        "hit:rcode-error",
+        "hit:transport-error",
+        "hit:referral",
+        "hit:cname",
+        "hit:case-variant",
+        "miss:expired-refetch",
+        "miss:fresh-after-change",
+        "miss:cd-partition",
+        "cfg:extreme",
+        "cfg:default-ctor",
+    ];
+    for n in need {
+        if c.get(n).copied().unwrap_or(0) == 0 {
+            return Err(format!("class `{n}` was never produced (hits={})", c.get("hit").copied().unwrap_or(0)));
+        }
+    }
+    Ok(())
+}
+
+//------------ independent view of a message ---------------------------------
+
+#[derive(Clone, Debug, PartialEq, Eq, PartialOrd, Ord)]
+struct PRec {
+    sec: u8,
+    owner: Vec<u8>,
+    rtype: u16,
+    class: u16,
+    rdata: Vec<u8>,
+    ttl: u32,
+}
+
+#[derive(Clone, Debug)]
+struct PMsg {
+    flags: u16,
+    rcode: u16,
+    qname: Vec<u8>,
+    qtype: u16,
+    qclass: u16,
+    recs: Vec<PRec>,
+}
+
+impl PMsg {
+    fn ad(&self) -> bool {
+        self.flags & 0x20 != 0
+    }
+    fn tc(&self) -> bool {
+        self.flags & 0x200 != 0
+    }
+}
+
+fn lower_wire(n: &[Vec<u8>]) -> Vec<u8> {
+    let mut o = vec![];
+    for l in n {
+        o.push(l.len() as u8);
+        o.extend(l.iter().map(|b| b.to_ascii_lowercase()));
+    }
+    o.push(0);
+    o
+}
+
+fn parse(bytes: &[u8]) -> Result<PMsg, String> {
+    let w = wire::walk(bytes).ok_or("shorter than a header")?;
+    if let Some(e) = &w.error {
+        return Err(format!("walk error {e:?}"));
+    }
+    if w.end != bytes.len() {
+        return Err("trailing octets".into());
+    }
+    if w.questions.len() != 1 {
+        return Err(format!("{} questions", w.questions.len()));
+    }
+    let q = &w.questions[0];
+    let mut rcode = w.header.rcode() as u16;
+    let mut recs = vec![];
+    for r in &w.records {
+        if r.rtype == T_OPT && r.section == 3 {
+            rcode |= ((r.ttl >> 24) as u16) << 4;
+            continue;
+        }
+        let owner = r.owner.clone().map_err(|e| format!("owner {e:?}"))?;
+        let (rdata, _) = wire::rdata_normal(bytes, r).map_err(|e| format!("rdata of type {} {e:?}", r.rtype))?;
+        // names inside RDATA: compare case-insensitively (compression may
+        // redirect a name to an occurrence with other case)
+        let rdata = match rr::normal_rdata(r.rtype, bytes, r.rd_start, r.rd_end, true) {
+            Ok((x, _)) => x,
+            Err(_) => rdata,
+        };
+        recs.push(PRec { sec: r.section, owner: lower_wire(&owner), rtype: r.rtype, class: r.class, rdata, ttl: r.ttl });
+    }
+    Ok(PMsg { flags: w.header.flags, rcode, qname: lower_wire(&q.name), qtype: q.qtype, qclass: q.qclass, recs })
+}
+
+fn is_dnssec_extra(r: &PRec) -> bool {
+    // record types a DO-clear query does not ask for (unless it is the
+    // query type): signatures and denial records anywhere, DS outside the
+    // answer section (it is there only as part of a signed referral)
+    r.rtype == T_RRSIG || r.rtype == T_NSEC || r.rtype == T_NSEC3 || (r.rtype == T_DS && r.sec != 1)
+}
+
+//------------ the oracle -------------------------------------------------------
+
+#[derive(Clone, Copy, Debug, PartialEq, Eq)]
+enum Bound {
+    Answer,
+    NoData,
+    NxDomain,
+    Delegation,
+    Misc,
+    Transport,
+}
+
+/// RFC 2308 §2 classification, from the upstream message alone.
+fn bound_kind(u: &PMsg) -> Bound {
+    match u.rcode {
+        0 => {
+            if u.recs.iter().any(|r| r.sec == 1 && (r.rtype == u.qtype || u.qtype == 255)) {
+                Bound::Answer
+            } else if u.recs.iter().any(|r| r.sec == 2 && r.rtype == 6) {
+                Bound::NoData
+            } else if u.recs.iter().any(|r| r.sec == 2 && r.rtype == 2) {
+                Bound::Delegation
+            } else {
+                Bound::NoData
+            }
+        }
+        3 => Bound::NxDomain,
+        _ => Bound::Misc,
+    }
+}
+
+#[derive(Debug, Default, Clone)]
+struct Info {
+    rd_down: bool,
+    do_down: bool,
+    ad_down: bool,
+    stripped: bool,
+    ad_cleared: bool,
+    exact_expiry: bool,
+    bound: Option<Bound>,
+    cname: bool,
+    tc: bool,
+    src: usize,
+    elapsed_ms: u64,
+}
+
+struct Fail {
+    rank: u8,
+    sig: String,
+    detail: String,
+}
+
+fn fail(rank: u8, sig: impl Into<String>, detail: String) -> Result<Info, Fail> {
+    Err(Fail { rank, sig: sig.into(), detail })
+}
+
+struct Entry {
+    log: LogEntry,
+    parsed: Option<PMsg>,
+}
+
+/// Can `r`, returned to `q` at `now_ms`, be explained by upstream response
+/// `e`? `hit` = no upstream call was made for this query.
+#[allow(clippy::too_many_arguments)]
+fn explain(
+    q: &Query,
+    r: &Result<PMsg, String>,
+    e: &Entry,
+    idx: usize,
+    now_ms: u64,
+    eff: &Eff,
+    sloppy: bool,
+    hit: bool,
+) -> Result<Info, Fail> {
+    let p = if hit { "hit" } else { "miss" };
+    let u = &e.log.req;
+    // same question (the caller filtered on it already)
+    // flag compatibility, from the module comment of cache.rs
+    let flag_fail = if u.cd != q.cd {
+        Some((format!("{p}:crosses-cd-partition"), format!("source U{idx} was fetched with cd={} but the query has cd={}", u.cd, q.cd)))
+    } else if q.rd && !u.rd {
+        Some((format!("{p}:rd-query-served-from-rd-clear-response"), format!("source U{idx} was fetched with RD clear")))
+    } else if q.dok && !u.dok {
+        Some((format!("{p}:do-query-served-from-do-clear-response"), format!("source U{idx} was fetched with DO clear")))
+    } else if q.adeff() && !u.adeff() {
+        Some((format!("{p}:ad-query-served-from-plain-response"), format!("source U{idx} was fetched with AD and DO clear")))
+    } else {
+        None
+    };
+    if let Some((sig, detail)) = flag_fail {
+        // If the content identifies this response as the source (its
+        // records carry the serial number of the fetch), the flag
+        // incompatibility is the best description of what went wrong.
+        let content = explain_content(q, r, e, idx, now_ms, eff, true, hit);
+        let has_records = matches!(r, Ok(m) if !m.recs.is_empty());
+        let rank = match content {
+            Ok(_) if has_records => 9,
+            Err(f) if f.rank >= 5 && has_records => 9,
+            _ => 1,
+        };
+        return fail(rank, sig, detail);
+    }
+    explain_content(q, r, e, idx, now_ms, eff, sloppy, hit)
+}
+
+#[allow(clippy::too_many_arguments)]
+fn explain_content(
+    q: &Query,
+    r: &Result<PMsg, String>,
+    e: &Entry,
+    idx: usize,
+    now_ms: u64,
+    eff: &Eff,
+    sloppy: bool,
+    hit: bool,
+) -> Result<Info, Fail> {
+    let p = if hit { "hit" } else { "miss" };
+    let u = &e.log.req;
+    let mut info = Info { src: idx, ..Default::default() };
+    info.rd_down = u.rd && !q.rd;
+    info.do_down = u.dok && !q.dok;
+    info.ad_down = u.adeff() && !q.adeff();
+    let elapsed = now_ms.saturating_sub(e.log.t_ms);
+    info.elapsed_ms = elapsed;
+    // failure vs message
+    let (rm, um) = match (r, &e.log.resp) {
+        (Err(re), Err(ue)) => {
+            if re != ue {
+                return fail(2, format!("{p}:different-error"), format!("returned {re}, U{idx} failed with {ue}"));
+            }
+            if elapsed > eff.transport_ms {
+                return fail(
+                    5,
+                    format!("{p}:transport-failure-retained-too-long"),
+                    format!("failure U{idx} {ue} served {elapsed} ms after it happened; transport_failure_duration = {} ms", eff.transport_ms),
+                );
+            }
+            if elapsed > eff.max_validity_ms {
+                return fail(5, format!("{p}:served-after-max-validity"), format!("{elapsed} ms > {}", eff.max_validity_ms));
+            }
+            info.bound = Some(Bound::Transport);
+            return Ok(info);
+        }
+        (Err(re), Ok(_)) => return fail(2, format!("{p}:error-for-message"), format!("returned error {re}, U{idx} was a message")),
+        (Ok(_), Err(ue)) => return fail(2, format!("{p}:message-for-error"), format!("returned a message, U{idx} was the failure {ue}")),
+        (Ok(rm), Ok(_)) => (rm, e.parsed.as_ref().expect("parsed upstream message")),
+    };
+    // header
+    if rm.rcode != um.rcode {
+        return fail(3, format!("{p}:rcode-differs"), format!("returned rcode {} but U{idx} had {}", rm.rcode, um.rcode));
+    }
+    if rm.flags & 0x8000 == 0 || (rm.flags >> 11) & 0xf != 0 {
+        return fail(3, format!("{p}:not-a-query-response"), format!("flags {:#06x}", rm.flags));
+    }
+    if rm.tc() != um.tc() {
+        return fail(3, format!("{p}:tc-differs"), format!("returned tc={} U{idx} tc={}", rm.tc(), um.tc()));
+    }
+    info.tc = um.tc();
+    // records: everything that is not a DNSSEC extra must be there exactly;
+    // DNSSEC extras must be a sub-multiset, and complete for a DO query
+    let mut rsorted: Vec<&PRec> = rm.recs.iter().collect();
+    let mut usorted: Vec<&PRec> = um.recs.iter().collect();
+    rsorted.sort();
+    usorted.sort();
+    let key = |a: &PRec| (a.sec, a.owner.clone(), a.rtype, a.class, a.rdata.clone());
+    let mut pairs: Vec<(&PRec, &PRec)> = vec![];
+    let mut ui = 0usize;
+    let mut dropped: Vec<&PRec> = vec![];
+    for rrec in &rsorted {
+        loop {
+            let Some(urec) = usorted.get(ui) else {
+                return fail(4, format!("{p}:records-differ"), format!("returned record {} is not in U{idx}\nreturned: {}\nupstream: {}", show_rec(rrec), show_recs(&rm.recs), show_recs(&um.recs)));
+            };
+            ui += 1;
+            if key(urec) == key(rrec) {
+                pairs.push((rrec, urec));
+                break;
+            }
+            dropped.push(urec);
+        }
+    }
+    dropped.extend(usorted[ui..].iter());
+    for d in &dropped {
+        // (an ANY query without DO may or may not get them: RFC 4035 §3
+        // lets a server treat them as any other RRset, the cache strips them)
+        let asked = d.rtype == q.qtype && d.sec == 1;
+        if !is_dnssec_extra(d) || q.dok || asked {
+            return fail(4, format!("{p}:records-differ"), format!("U{idx}'s record {} is missing\nreturned: {}\nupstream: {}", show_rec(d), show_recs(&rm.recs), show_recs(&um.recs)));
+        }
+    }
+    info.stripped = !dropped.is_empty();
+    info.cname = um.recs.iter().any(|x| x.sec == 1 && x.rtype == 5);
+    // AD: never added; kept for a query that asked
+    if rm.ad() && !um.ad() {
+        return fail(5, format!("{p}:ad-set-but-upstream-had-it-clear"), format!("U{idx} had AD clear"));
+    }
+    if q.adeff() && rm.ad() != um.ad() {
+        return fail(5, format!("{p}:ad-lost-for-ad-query"), format!("U{idx} had AD set, the query asked for it (ad={} do={})", q.ad, q.dok));
+    }
+    info.ad_cleared = um.ad() && !rm.ad();
+    // exposure (the statement's last clause). Not checkable against a sloppy
+    // upstream that itself exposes them.
+    if !sloppy {
+        if !q.adeff() && rm.ad() {
+            return fail(5, format!("{p}:ad-exposed-to-plain-query"), format!("query had AD and DO clear; source U{idx} fetched with [{}]", u.flags_str()));
+        }
+        if !q.dok {
+            for x in &rm.recs {
+                let asked = (x.rtype == q.qtype || q.qtype == 255) && x.sec == 1;
+                if is_dnssec_extra(x) && !asked {
+                    return fail(
+                        5,
+                        format!("{p}:dnssec-exposed-to-do-clear-query:{}", rr::mnemonic(x.rtype)),
+                        format!("record {} returned to a query without DO; source U{idx} fetched with [{}]", show_rec(x), u.flags_str()),
+                    );
+                }
+            }
+        }
+    }
+    // TTLs: reduced by the time in the cache (1 s tolerance), never increased
+    let mut min_ttl: Option<u32> = None;
+    for (a, b) in &pairs {
+        if a.ttl > b.ttl {
+            return fail(6, format!("{p}:ttl-increased"), format!("{} has TTL {} but upstream said {} ({} ms earlier)", show_rec(a), a.ttl, b.ttl, elapsed));
+        }
+        let want_ms = (b.ttl as i128) * 1000 - elapsed as i128;
+        let got_ms = (a.ttl as i128) * 1000;
+        if (got_ms - want_ms).abs() > 1000 {
+            return fail(
+                6,
+                format!("{p}:ttl-not-reduced-by-time-in-cache"),
+                format!("{} has TTL {}, upstream said {} and {} ms have passed", show_rec(a), a.ttl, b.ttl, elapsed),
+            );
+        }
+        min_ttl = Some(min_ttl.map_or(b.ttl, |m| m.min(b.ttl)));
+    }
+    if hit {
+        // nothing is served once the smallest TTL / a configured bound has
+        // elapsed. Boundary: at exactly elapsed == bound the entry may still
+        // be served (closed interval), except that TTL 0 is never cacheable.
+        if let Some(m) = min_ttl {
+            if m == 0 {
+                return fail(7, "hit:zero-ttl-response-served-from-cache", format!("U{idx} has a record with TTL 0 and was served from the cache"));
+            }
+            if elapsed > m as u64 * 1000 {
+                return fail(7, "hit:served-after-smallest-ttl", format!("smallest TTL of the served records was {m} s, served {elapsed} ms after the fetch"));
+            }
+            info.exact_expiry = elapsed == m as u64 * 1000;
+        }
+        if elapsed > eff.max_validity_ms {
+            return fail(7, "hit:served-after-max-validity", format!("served {elapsed} ms after the fetch, max_validity = {} ms", eff.max_validity_ms));
+        }
+        let b = bound_kind(um);
+        let (lim, what) = match b {
+            Bound::NxDomain => (eff.nx_ms, "nxdomain"),
+            Bound::NoData => (eff.nodata_ms, "nodata"),
+            Bound::Misc => (eff.misc_ms, "misc-error"),
+            Bound::Delegation => (eff.deleg_ms, "delegation"),
+            _ => (u64::MAX, ""),
+        };
+        if elapsed > lim {
+            return fail(7, format!("hit:{what}-retained-too-long"), format!("{what} response U{idx} served {elapsed} ms after the fetch; configured bound {lim} ms"));
+        }
+        if um.tc() && !eff.trunc {
+            return fail(7, "hit:truncated-response-cached-while-disabled", format!("U{idx} had TC set and cache_truncated is off"));
+        }
+        info.bound = Some(b);
+    }
+    Ok(info)
+}
+
+/// How long the oracle would allow `e` to be served (evidence only).
+fn validity_ms(e: &Entry, eff: &Eff) -> u64 {
+    match &e.parsed {
+        None => eff.transport_ms.min(eff.max_validity_ms),
+        Some(p) => {
+            let mut v = eff.max_validity_ms;
+            for r in &p.recs {
+                v = v.min(r.ttl as u64 * 1000);
+            }
+            v.min(match bound_kind(p) {
+                Bound::NxDomain => eff.nx_ms,
+                Bound::NoData => eff.nodata_ms,
+                Bound::Misc => eff.misc_ms,
+                Bound::Delegation => eff.deleg_ms,
+                _ => u64::MAX,
+            })
+        }
+    }
+}
+
+fn show_rec(r: &PRec) -> String {
+    format!("[s{} {} {} ttl={} {}]", r.sec, show_name(&r.owner), rr::mnemonic(r.rtype), r.ttl, hex(&r.rdata))
+}
+fn show_recs(r: &[PRec]) -> String {
+    r.iter().map(show_rec).collect::<Vec<_>>().join(" ")
+}
+fn show_name(w: &[u8]) -> String {
+    let mut s = String::new();
+    let mut i = 0;
+    while i < w.len() && w[i] != 0 {
+        let n = w[i] as usize;
+        s.push_str(&String::from_utf8_lossy(&w[i + 1..(i + 1 + n).min(w.len())]));
+        s.push('.');
+        i += 1 + n;
+    }
+    if s.is_empty() {
+        s.push('.');
+    }
+    s
+}
+fn hex(b: &[u8]) -> String {
+    let mut s = String::new();
+    for x in b.iter().take(24) {
+        s.push_str(&format!("{x:02x}"));
+    }
+    if b.len() > 24 {
+        s.push('…');
+    }
+    s
+}
+
+//------------ running a history ---------------------------------------------------
+
+fn run_history(data: &[u8], ctx: &mut Ctx) -> CaseResult {
+    run_mode(data, ctx, false)
+}
+fn run_evict(data: &[u8], ctx: &mut Ctx) -> CaseResult {
+    run_mode(data, ctx, true)
+}
+
+fn build_config(c: &Cfg) -> cache::Config {
+    let mut cfg = cache::Config::new();
+    let ms = Duration::from_millis;
+    if let Some(v) = c.entries {
+        cfg.set_max_cache_entries(v);
+    }
+    if let Some(v) = c.max_validity {
+        cfg.set_max_validity(ms(v));
+    }
+    if let Some(v) = c.transport {
+        cfg.set_transport_failure_duration(ms(v));
+    }
+    if let Some(v) = c.misc {
+        cfg.set_misc_error_duration(ms(v));
+    }
+    if let Some(v) = c.nx {
+        cfg.set_max_nxdomain_validity(ms(v));
+    }
+    if let Some(v) = c.nodata {
+        cfg.set_max_nodata_validity(ms(v));
+    }
+    if let Some(v) = c.deleg {
+        cfg.set_max_delegation_validity(ms(v));
+    }
+    if let Some(v) = c.trunc {
+        cfg.set_cache_truncated(v);
+    }
+    cfg
+}
+
+fn build_request(q: &Query, id: u16) -> Result<RequestMessage<Vec<u8>>, String> {
+    let flags: u16 = (q.rd as u16) << 8 | (q.ad as u16) << 5 | (q.cd as u16) << 4;
+    let mut a = wire::Asm::new(id, flags);
+    a.question(&q.labels_sent(), q.qtype, q.qclass);
+    let msg = Message::from_octets(a.buf).map_err(|e| format!("{e:?}"))?;
+    let mut req = RequestMessage::new(msg).map_err(|e| format!("{e:?}"))?;
+    if q.dok {
+        req.set_dnssec_ok(true);
+    } else if q.opt {
+        req.set_udp_payload_size(1232);
+    }
+    Ok(req)
+}
+
+#[derive(Default)]
+struct Stats {
+    classes: Vec<&'static str>,
+    hits: u32,
+    misses: u32,
+    nontrivial: bool,
+}
+
+fn run_mode(data: &[u8], ctx: &mut Ctx, evict: bool) -> CaseResult {
+    let case = decode(data, evict);
+    let eff = case.cfg.eff();
+    let mut trace: Vec<String> = vec![];
+    let mut stats = Stats::default();
+    let res = block_on_paused(run_async(&case, &eff, &mut trace, &mut stats));
+    if evict {
+        // eviction timing is moka's business and not deterministic across
+        // processes: report nothing that depends on hit or miss
+        ctx.class("evict-mode");
+    } else {
+        for c in &stats.classes {
+            ctx.class(*c);
+        }
+        if case.sloppy {
+            ctx.class("sloppy-upstream");
+        }
+        if case.cfg.default_ctor {
+            ctx.class("cfg:default-ctor");
+        } else if case.cfg.is_extreme() {
+            ctx.class("cfg:extreme");
+        }
+        ctx.class(match stats.hits {
+            0 => "hit-rate:0",
+            1..=3 => "hit-rate:1-3",
+            _ => "hit-rate:4+",
+        });
+        if stats.nontrivial {
+            ctx.nontrivial(&case);
+        }
+    }
+    ctx.sample(|| format!("cfg {:?} | {}", eff, trace.join(" ; ")));
+    match res {
+        Ok(()) => Ok(()),
+        Err(mut v) => {
+            v.detail = format!(
+                "{}\nconfig: {:?} (raw {:?})\nsloppy upstream: {}\nhistory:\n  {}",
+                v.detail,
+                eff,
+                case.cfg,
+                case.sloppy,
+                trace.join("\n  ")
+            );
+            Err(v)
+        }
+    }
+}
+
+async fn run_async(case: &Case, eff: &Eff, trace: &mut Vec<String>, stats: &mut Stats) -> CaseResult {
+    let mock = Mock::new(case.templates.clone(), case.sloppy);
+    let start = mock.st.lock().unwrap().start;
+    let conn = if case.cfg.default_ctor { cache::Connection::new(mock.clone()) } else { cache::Connection::with_config(mock.clone(), build_config(&case.cfg)) };
+    let now_ms = || (Instant::now() - start).as_millis() as u64;
+    let mut entries: Vec<Entry> = vec![];
+    let cls = |s: &'static str, stats: &mut Stats| {
+        if !stats.classes.contains(&s) {
+            stats.classes.push(s);
+        }
+    };
+    for (si, step) in case.steps.iter().enumerate() {
+        match step {
+            Step::Advance(a) => {
+                let dt = match a {
+                    Adv::Fixed(ms) => *ms,
+                    Adv::Rel { back, sel, off_ms } => {
+                        // aim at a boundary of an earlier upstream response
+                        if entries.is_empty() {
+                            1000
+                        } else {
+                            let e = &entries[entries.len() - 1 - (*back as usize).min(entries.len() - 1)];
+                            let mut bounds: Vec<u64> = vec![];
+                            if let Some(p) = &e.parsed {
+                                for r in &p.recs {
+                                    bounds.push(r.ttl as u64 * 1000);
+                                }
+                                bounds.push(match bound_kind(p) {
+                                    Bound::NxDomain => eff.nx_ms,
+                                    Bound::NoData => eff.nodata_ms,
+                                    Bound::Misc => eff.misc_ms,
+                                    Bound::Delegation => eff.deleg_ms,
+                                    _ => eff.max_validity_ms,
+                                });
+                            } else {
+                                bounds.push(eff.transport_ms);
+                            }
+                            bounds.push(eff.max_validity_ms);
+                            bounds.sort();
+                            bounds.dedup();
+                            let b = bounds[*sel as usize % bounds.len()];
+                            // half of the time: go half way only
+                            let target = e.log.t_ms as i128 + if *sel >= 128 { b as i128 / 2 } else { b as i128 + *off_ms as i128 };
+                            (target - now_ms() as i128).max(0) as u64
+                        }
+                    }
+                };
+                tokio::time::advance(Duration::from_millis(dt)).await;
+                trace.push(format!("+{}ms", dt));
+            }
+            Step::Query(q) => {
+                let req = match build_request(q, si as u16 + 1) {
+                    Ok(r) => r,
+                    Err(e) => vfail!("harness:request-build", "{e}"),
+                };
+                let before = mock.st.lock().unwrap().log.len();
+                let t0 = now_ms();
+                let mut handle = conn.send_request(req);
+                let got = handle.get_response().await;
+                drop(handle);
+                let t1 = now_ms();
+                // pick up what the upstream logged
+                {
+                    let g = mock.st.lock().unwrap();
+                    if let Some(b) = &g.bad {
+                        vfail!("harness:mock", "{b}");
+                    }
+                    for l in g.log[entries.len()..].iter() {
+                        let parsed = match &l.resp {
+                            Ok(b) => match parse(b) {
+                                Ok(p) => Some(p),
+                                Err(e) => vfail!("harness:mock-response-unparseable", "{e}"),
+                            },
+                            Err(_) => None,
+                        };
+                        entries.push(Entry { log: l.clone(), parsed });
+                    }
+                }
+                let hit = entries.len() == before;
+                let r: Result<PMsg, String> = match &got {
+                    Ok(m) => match parse(m.as_slice()) {
+                        Ok(p) => Ok(p),
+                        Err(e) => vfail!(
+                            format!("{}:response-unparseable", if hit { "hit" } else { "miss" }),
+                            "step {si} {}: returned message does not parse ({e}): {:02x?}",
+                            q.render(),
+                            m.as_slice()
+                        ),
+                    },
+                    Err(e) => Err(format!("{e:?}")),
+                };
+                let p = if hit { "hit" } else { "miss" };
+                let qn = lower_wire(&q.labels_lower());
+                // the question of the returned message is the query's
+                if let Ok(rm) = &r {
+                    if rm.qname != qn || rm.qtype != q.qtype || rm.qclass != q.qclass {
+                        vfail!(
+                            format!("{p}:question-differs"),
+                            "step {si} {}: returned question {} type {} class {}",
+                            q.render(),
+                            show_name(&rm.qname),
+                            rm.qtype,
+                            rm.qclass
+                        );
+                    }
+                }
+                // candidates: upstream responses for the same question. For a
+                // miss the explanation has to be the call just made.
+                let cands: Vec<usize> = if hit {
+                    (0..entries.len()).collect()
+                } else {
+                    vec![entries.len() - 1]
+                };
+                let mut best: Option<Fail> = None;
+                let mut ok: Option<Info> = None;
+                for &i in cands.iter().rev() {
+                    let e = &entries[i];
+                    if lower_wire(&e.log.req.name_lower) != qn || e.log.req.qtype != q.qtype || e.log.req.qclass != q.qclass {
+                        continue;
+                    }
+                    match explain(q, &r, e, i, t1, eff, case.sloppy, hit) {
+                        Ok(info) => {
+                            ok = Some(info);
+                            break;
+                        }
+                        Err(f) => {
+                            if best.as_ref().map_or(true, |b| f.rank > b.rank) {
+                                best = Some(f);
+                            }
+                        }
+                    }
+                }
+                let outcome = match (&ok, &r) {
+                    (Some(i), Ok(_)) => format!("{} U{} age {}ms", if hit { "HIT" } else { "miss" }, i.src, i.elapsed_ms),
+                    (Some(i), Err(e)) => format!("{} U{} age {}ms {e}", if hit { "HIT" } else { "miss" }, i.src, i.elapsed_ms),
+                    _ => "UNEXPLAINED".into(),
+                };
+                trace.push(format!("@{t0}ms {} -> {outcome}", q.render()));
+                let Some(info) = ok else {
+                    let shown = match &r {
+                        Ok(rm) => format!("flags {:#06x} rcode {} records {}", rm.flags, rm.rcode, show_recs(&rm.recs)),
+                        Err(e) => format!("error {e}"),
+                    };
+                    let ups: Vec<String> = entries
+                        .iter()
+                        .enumerate()
+                        .filter(|(_, e)| lower_wire(&e.log.req.name_lower) == qn && e.log.req.qtype == q.qtype)
+                        .map(|(i, e)| {
+                            format!(
+                                "U{i} @{}ms [{}] {}",
+                                e.log.t_ms,
+                                e.log.req.flags_str(),
+                                match (&e.parsed, &e.log.resp) {
+                                    (Some(p), _) => format!("flags {:#06x} rcode {} {}", p.flags, p.rcode, show_recs(&p.recs)),
+                                    (_, Err(x)) => x.clone(),
+                                    _ => String::new(),
+                                }
+                            )
+                        })
+                        .collect();
+                    match best {
+                        Some(f) => vfail!(
+                            f.sig,
+                            "step {si} at {t1} ms, query {}: the returned response is not explained by any upstream response.\nclosest: {}\nreturned: {shown}\nupstream responses for this question:\n  {}",
+                            q.render(),
+                            f.detail,
+                            ups.join("\n  ")
+                        ),
+                        None => vfail!(
+                            format!("{p}:no-upstream-response-for-question"),
+                            "step {si} at {t1} ms, query {}: served without an upstream call, and upstream never answered this question.\nreturned: {shown}",
+                            q.render()
+                        ),
+                    }
+                };
+                // evidence
+                if hit {
+                    stats.hits += 1;
+                    cls("hit", stats);
+                    let src = &entries[info.src].log.req;
+                    let flagdiff = info.rd_down || info.do_down || info.ad_down;
+                    if info.elapsed_ms > 0 {
+                        cls("hit:after-advance", stats);
+                    }
+                    if info.elapsed_ms > 0 || flagdiff {
+                        stats.nontrivial = true;
+                    }
+                    if !flagdiff {
+                        cls("edge:exact-flags", stats);
+                    }
+                    if info.rd_down {
+                        cls("edge:rd-down", stats);
+                    }
+                    if info.do_down {
+                        cls("edge:do-down", stats);
+                    }
+                    if info.ad_down {
+                        cls("edge:ad-down", stats);
+                    }
+                    if info.stripped {
+                        cls("hit:dnssec-stripped", stats);
+                    }
+                    if info.ad_cleared {
+                        cls("hit:ad-cleared", stats);
+                    }
+                    if info.exact_expiry {
+                        cls("hit:at-exact-expiry-instant", stats);
+                    }
+                    if info.cname {
+                        cls("hit:cname", stats);
+                    }
+                    if info.tc {
+                        cls("hit:truncated", stats);
+                    }
+                    if src.name_sent != q.labels_sent() {
+                        cls("hit:case-variant", stats);
+                    }
+                    match info.bound {
+                        Some(Bound::NxDomain) => cls("hit:negative-nxdomain", stats),
+                        Some(Bound::NoData) => cls("hit:negative-nodata", stats),
+                        Some(Bound::Misc) => cls("hit:rcode-error", stats),
+                        Some(Bound::Transport) => cls("hit:transport-error", stats),
+                        Some(Bound::Delegation) => cls("hit:referral", stats),
+                        Some(Bound::Answer) => cls("hit:answer", stats),
+                        None => {}
+                    }
+                    if q.dok {
+                        cls("hit:do-query", stats);
+                    }
+                } else {
+                    stats.misses += 1;
+                    cls("miss", stats);
+                    // why was it a miss? (evidence only)
+                    let me = entries.len() - 1;
+                    let mut earlier_same = false;
+                    let mut earlier_other_cd = false;
+                    let mut changed = false;
+                    let mut earlier_live = false;
+                    for e in entries[..me].iter() {
+                        if lower_wire(&e.log.req.name_lower) != qn || e.log.req.qtype != q.qtype || e.log.req.qclass != q.qclass {
+                            continue;
+                        }
+                        let u = &e.log.req;
+                        if u.cd != q.cd {
+                            earlier_other_cd = true;
+                            continue;
+                        }
+                        if (u.rd || !q.rd) && (u.dok || !q.dok) && (u.adeff() || !q.adeff()) {
+                            if t0.saturating_sub(e.log.t_ms) > validity_ms(e, eff) {
+                                earlier_same = true;
+                                if e.log.resp != entries[me].log.resp {
+                                    changed = true;
+                                }
+                            } else {
+                                earlier_live = true;
+                            }
+                        }
+                    }
+                    if earlier_same {
+                        cls("miss:expired-refetch", stats);
+                        if changed {
+                            cls("miss:fresh-after-change", stats);
+                        }
+                    } else if earlier_live {
+                        cls("miss:not-cached-or-not-reused", stats);
+                    } else if earlier_other_cd {
+                        cls("miss:cd-partition", stats);
+                    }
+                    if q.qclass != 1 {
+                        cls("miss:non-in-class", stats);
+                    }
+                    if entries[me].log.t_ms > t0 {
+                        cls("miss:upstream-latency", stats);
+                    }
+                }
+            }
+        }
+    }
+    let _ = stats.misses;
+    Ok(())
 }
